@@ -242,6 +242,12 @@ inline void drive_c15()
         P::fill_like(pf);
         F c(pf);
         hits += read_all(c, 30);
+        // every byte of the converted field's storage is part of its value: it is dumped and copied as a whole
+        std::string cb = zio::dump<Z>(c);
+        dig = vh::fnv(cb.data(), cb.size(), dig);
+        F cc(c);
+        std::string ccb = zio::dump<Z>(cc);
+        if (ccb != cb) vh::viol("program:copy-of-converted-field-dumps-differently", Z::type_string());
     }
     std::printf("@DIGEST %s\t%016llx\n", Z::name(), (unsigned long long)dig);
     vh::stat("programs");
